@@ -115,6 +115,8 @@ impl Buildpack for Vbp {
                     .process(ProcessBuilder::new(process_type!("web"), ["run", "vbp"]).default(true).build())
                     .process(ProcessBuilder::new(process_type!("worker"), ["work"]).args(["--queue", "a b"]).build())
                     .process(ProcessBuilder::new(process_type!("console"), ["sh"]).working_directory(libcnb::data::launch::WorkingDirectory::Directory("bin dir".into())).build())
+                    // the same process type registered twice is legal for the builder
+                    .process(ProcessBuilder::new(process_type!("web"), ["run", "again"]).build())
                     .label(libcnb::data::launch::Label { key: "zeta".into(), value: "1".into() })
                     .label(libcnb::data::launch::Label { key: "alpha".into(), value: "2".into() })
                     .slice(libcnb::data::launch::Slice { path_globs: vec!["z/*".into(), "a/*".into()] })
